@@ -181,10 +181,45 @@ fn boundary() -> impl Strategy<Value = DCase> {
     })
 }
 
+/// Decimal expansions with a long run of one digit (nines or zeros, sometimes another digit): a few leading
+/// digits, a run of 15-45 equal digits, a short tail; the decimal point anywhere from far left to far
+/// right.  This is where an implementation that estimates digits (from leading bits, from a float) goes
+/// wrong by one, and where denominators exceed a machine word.
+fn digit_runs() -> impl Strategy<Value = DCase> {
+    (
+        prop::collection::vec(0u8..10, 0..=6),
+        prop_oneof![4 => Just(9u8), 3 => Just(0u8), 1 => 1u8..=8],
+        15usize..=45,
+        prop::collection::vec(0u8..10, 0..=6),
+        -6i64..=52,
+        any::<bool>(),
+        prop::option::weighted(0.3, prop_oneof![Just(3u32), Just(7), Just(11), Just(13), Just(64), Just(125)]),
+        1usize..=20,
+        1usize..=15,
+        prop::bool::weighted(0.85),
+    )
+        .prop_map(|(head, d, run, tail, point, neg, div, l, e, cont)| {
+            let mut ds: Vec<u8> = head;
+            if ds.first().copied().unwrap_or(0) == 0 {
+                ds.insert(0, 1 + d % 9);
+            }
+            ds.extend(std::iter::repeat(d).take(run));
+            ds.extend(tail);
+            let m: BigInt = ds.iter().map(|x| (b'0' + x) as char).collect::<String>().parse().unwrap();
+            // `point` integer digits (<= 0: that many zeros between the point and the first digit)
+            let mut v = BigRational::from_integer(m) * pow10(point - ds.len() as i64);
+            if let Some(q) = div {
+                v = v / BigRational::from_integer(BigInt::from(q));
+            }
+            let v = if neg { -v } else { v };
+            DCase::new(&v, l, e, cont)
+        })
+}
+
 const SPECS: [(usize, usize); 12] = [(6, 8), (12, 12), (1, 1), (1, 15), (20, 1), (20, 15), (3, 4), (8, 2), (2, 9), (5, 5), (10, 3), (15, 7)];
 
 pub fn run_check(ctx: &Ctx) {
-    ctx.set_rule("values: exhaustive grid n/d (n in -N..N, d in 1..D), random terminating and repeating rationals 1e-45..1e45, and budget-boundary values built from the spec (exactly L, L+1.. significant digits; integer parts with E-1, E, E+1 digits; zero tails; all nines); specs: limit 1..20 x exponent threshold 1..15 x continuation on/off; oracle: text parses as -?d[.d][…][e-?N], sign matches, |printed| <= |value| < |printed| + one unit in the last place, mark present iff something non-zero was cut; non-trivial = digits were cut or the scientific path was taken; distinct by (value, spec)");
+    ctx.set_rule("values: exhaustive grid n/d (n in -N..N, d in 1..D), random terminating and repeating rationals 1e-45..1e45, and budget-boundary values built from the spec (exactly L, L+1.. significant digits; integer parts with E-1, E, E+1 digits; zero tails; all nines), and decimal expansions with a run of 15-45 equal digits (nines, zeros) at any position relative to the point, also divided by 3, 7, 11, 13, 64, 125; specs: limit 1..20 x exponent threshold 1..15 x continuation on/off; oracle: text parses as -?d[.d][…][e-?N], sign matches, |printed| <= |value| < |printed| + one unit in the last place, mark present iff something non-zero was cut; non-trivial = digits were cut or the scientific path was taken; distinct by (value, spec)");
     let corpus: Vec<(String, DCase)> = load_corpus("C08");
     let cases: Vec<DCase> = corpus.into_iter().map(|c| c.1).collect();
     ctx.run_list("corpus", &cases, check, |c| to_json(c));
@@ -211,6 +246,7 @@ pub fn run_check(ctx: &Ctx) {
     );
     let n = ctx.tier.pick(1_500_000u64, 20_000_000);
     ctx.run_gen("boundary", boundary, n, check, |c| to_json(c));
+    ctx.run_gen("digit-runs", digit_runs, n / 3, check, |c| to_json(c));
     ctx.run_gen(
         "random",
         || (rational(), 1usize..=20, 1usize..=15, prop::bool::weighted(0.85)).prop_map(|(v, l, e, c)| DCase::new(&v, l, e, c)),
